@@ -281,7 +281,7 @@ func (u *Universe) sortOf(t types.Type, key string) *Sort {
 		case tt.Info()&types.IsString != 0:
 			return SStr
 		case tt.Info()&types.IsFloat != 0:
-			return SFloat
+			return u.opaque("F64")
 		case tt.Kind() == types.UntypedNil:
 			return SInt
 		}
@@ -294,6 +294,12 @@ func (u *Universe) sortOf(t types.Type, key string) *Sort {
 			name := "S_" + sanitize(tt.Obj().Name())
 			if tt.Obj().Pkg() != nil {
 				name = "S_" + sanitize(shortPkg(tt.Obj().Pkg().Path())) + "_" + sanitize(tt.Obj().Name())
+			}
+			if tt.TypeArgs() != nil && tt.TypeArgs().Len() > 0 {
+				name += "_" + sanitize(shortPkg(typeString(tt)))
+				if len(name) > 120 {
+					name = name[:120]
+				}
 			}
 			return u.structSort(name, ut)
 		case *types.Interface:
@@ -369,8 +375,12 @@ func (u *Universe) structSort(name string, st *types.Struct) *Sort {
 		if fsort.Kind == KFloat {
 			fsort = u.opaque("Opq_float")
 		}
-		s.Fields = append(s.Fields, Field{Name: f.Name(), S: fsort, GoT: f.Type()})
-		fs = append(fs, fmt.Sprintf("(%s_%s %s)", name, sanitize(f.Name()), fsort.Name))
+		fname := f.Name()
+		if fname == "_" {
+			fname = fmt.Sprintf("blank%d", i)
+		}
+		s.Fields = append(s.Fields, Field{Name: fname, S: fsort, GoT: f.Type()})
+		fs = append(fs, fmt.Sprintf("(%s_%s %s)", name, sanitize(fname), fsort.Name))
 	}
 	if len(fs) == 0 {
 		u.decl("sort:"+name, fmt.Sprintf("(declare-datatypes ((%s 0)) (((mk_%s))))", name, name))
